@@ -25,6 +25,7 @@ Proof. intros H. unfold upd. apply Nat.eqb_neq in H. rewrite H. reflexivity. Qed
 
 Section Conf.
   Variable disc : gvar -> prot.
+  Variable W : gvar -> bool.
 
   Lemma ast_of_snoc d s : ast_of disc (d ++ [s]) = ast_step disc (ast_of disc d) s.
   Proof. unfold ast_of. rewrite fold_left_app. reflexivity. Qed.
@@ -42,11 +43,13 @@ Section Conf.
     inv_split : forall i, t_done (c_thr c i) ++ t_todo (c_thr c i) = progs i;
     inv_held : forall i l, In l (a_held (A c i)) -> c_locks c l = Some i;
     inv_locks : forall i l, c_locks c l = Some i -> In l (a_held (A c i));
-    inv_prot : forall i g, In g (a_fresh (A c i)) -> may_access disc i (A c i) g = true;
-    inv_fresh : forall i g, In g (a_fresh (A c i)) -> c_store c g = v_store (V c i) g;
-    inv_obs : forall i, t_obs (c_thr c i) = v_obs (V c i);
-    inv_ok : forall i, ok_from disc i (A c i) (t_todo (c_thr c i)) = true
+    inv_prot : forall i g, W g = true -> In g (a_fresh (A c i)) -> may_access disc i (A c i) g = true;
+    inv_fresh : forall i g, W g = true -> In g (a_fresh (A c i)) -> c_store c g = v_store (V c i) g;
+    inv_obs : forall i, wobs W (t_obs (c_thr c i)) = wobs W (v_obs (V c i));
+    inv_ok : forall i, ok_from disc W i (A c i) (t_todo (c_thr c i)) = true
   }.
+
+  Hypothesis Hwrites : forall i, Forall (write_ok W) (progs i).
 
   (* two different threads cannot both be allowed to access the same global *)
   Lemma access_exclusive c i t g :
@@ -92,7 +95,7 @@ Section Conf.
 
   Lemma ok_after c st lk t s rest o :
     inv c -> t_todo (c_thr c t) = s :: rest ->
-    forall i, ok_from disc i (A (mkConfig st lk (thr_upd c t s rest o)) i) (t_todo (c_thr (mkConfig st lk (thr_upd c t s rest o)) i)) = true.
+    forall i, ok_from disc W i (A (mkConfig st lk (thr_upd c t s rest o)) i) (t_todo (c_thr (mkConfig st lk (thr_upd c t s rest o)) i)) = true.
   Proof.
     intros I E i. destruct (Nat.eq_dec i t) as [->|Hi].
     - rewrite A_self. simpl. rewrite thr_self. simpl.
@@ -106,47 +109,56 @@ Section Conf.
     intros I Hs. unfold step_thread in Hs.
     destruct (t_todo (c_thr c t)) as [|s rest] eqn:Etodo; [discriminate|].
     pose proof (inv_ok c I t) as Hok. rewrite Etodo in Hok. simpl in Hok. apply andb_true_iff in Hok. destruct Hok as [Hhd _].
+    assert (Hin : In s (progs t)).
+    { rewrite <- (inv_split c I t), Etodo. apply in_or_app. right. left. reflexivity. }
+    pose proof (proj1 (Forall_forall _ _) (Hwrites t) s Hin) as Hwok.
     destruct s as [g f|g| |l|l].
     - (* Write *)
       inversion Hs; subst c'; clear Hs.
+      assert (Hacc : W g = true -> may_access disc t (A c t) g = true).
+      { intros Wg. rewrite Wg in Hhd. exact Hhd. }
       fold (thr_upd c t (Write g f) rest (t_obs (c_thr c t))).
       constructor; [apply split_after; assumption | | | | | | apply ok_after; assumption]; intros i.
       + intros l0 Hl. simpl. destruct (Nat.eq_dec i t) as [->|Hi]; [rewrite A_self in Hl | rewrite A_other in Hl by exact Hi];
           apply (inv_held c I); exact Hl.
       + intros l0 Hl. simpl in Hl. destruct (Nat.eq_dec i t) as [->|Hi]; [rewrite A_self | rewrite A_other by exact Hi];
           simpl; apply (inv_locks c I); exact Hl.
-      + intros g0 Hg. destruct (Nat.eq_dec i t) as [->|Hi].
+      + intros g0 Wg Hg. destruct (Nat.eq_dec i t) as [->|Hi].
         * rewrite A_self in *. simpl in Hg. unfold may_access. simpl.
-          destruct Hg as [<-|Hg]; [exact Hhd | apply (inv_prot c I); exact Hg].
-        * rewrite A_other in * by exact Hi. apply (inv_prot c I). exact Hg.
-      + intros g0 Hg. simpl. destruct (Nat.eq_dec i t) as [->|Hi].
-        * rewrite A_self in Hg. simpl in Hg. rewrite V_self. simpl. rewrite <- (inv_obs c I t).
-          unfold upd. destruct (Nat.eqb g0 g) eqn:E; [reflexivity|].
+          destruct Hg as [<-|Hg]; [apply Hacc; exact Wg | apply (inv_prot c I); assumption].
+        * rewrite A_other in * by exact Hi. apply (inv_prot c I); assumption.
+      + intros g0 Wg Hg. simpl. destruct (Nat.eq_dec i t) as [->|Hi].
+        * rewrite A_self in Hg. simpl in Hg. rewrite V_self. simpl.
+          unfold upd. destruct (Nat.eqb g0 g) eqn:E.
+          { apply Nat.eqb_eq in E. subst g0. simpl in Hwok. apply (Hwok Wg). apply (inv_obs c I). }
           destruct Hg as [<-|Hg]; [rewrite Nat.eqb_refl in E; discriminate|].
-          apply (inv_fresh c I). exact Hg.
+          apply (inv_fresh c I); assumption.
         * rewrite A_other in Hg by exact Hi. rewrite V_other by exact Hi.
           assert (g0 <> g).
-          { intros ->. apply (access_exclusive c i t g I Hi); [apply (inv_prot c I); exact Hg | exact Hhd]. }
-          rewrite upd_other by assumption. apply (inv_fresh c I). exact Hg.
+          { intros ->. apply (access_exclusive c i t g I Hi); [apply (inv_prot c I); assumption | apply Hacc; exact Wg]. }
+          rewrite upd_other by assumption. apply (inv_fresh c I); assumption.
       + simpl. destruct (Nat.eq_dec i t) as [->|Hi].
         * rewrite V_self, thr_self. simpl. apply (inv_obs c I).
         * rewrite V_other, thr_other by exact Hi. apply (inv_obs c I).
     - (* Read *)
       inversion Hs; subst c'; clear Hs.
-      apply andb_true_iff in Hhd. destruct Hhd as [Hacc Hfr]. apply mem_In in Hfr.
+      assert (Hfr : W g = true -> In g (a_fresh (A c t))).
+      { intros Wg. rewrite Wg in Hhd. simpl in Hhd. apply andb_true_iff in Hhd. apply mem_In. exact (proj2 Hhd). }
       fold (thr_upd c t (Read g) rest ((g, c_store c g) :: t_obs (c_thr c t))).
       constructor; [apply split_after; assumption | | | | | | apply ok_after; assumption]; intros i.
       + intros l0 Hl. simpl. destruct (Nat.eq_dec i t) as [->|Hi]; [rewrite A_self in Hl | rewrite A_other in Hl by exact Hi];
           apply (inv_held c I); exact Hl.
       + intros l0 Hl. simpl in Hl. destruct (Nat.eq_dec i t) as [->|Hi]; [rewrite A_self | rewrite A_other by exact Hi];
           simpl; apply (inv_locks c I); exact Hl.
-      + intros g0 Hg. destruct (Nat.eq_dec i t) as [->|Hi]; [rewrite A_self in * | rewrite A_other in * by exact Hi];
-          apply (inv_prot c I); exact Hg.
-      + intros g0 Hg. simpl. destruct (Nat.eq_dec i t) as [->|Hi].
-        * rewrite A_self in Hg. rewrite V_self. simpl. apply (inv_fresh c I). exact Hg.
-        * rewrite A_other in Hg by exact Hi. rewrite V_other by exact Hi. apply (inv_fresh c I). exact Hg.
+      + intros g0 Wg Hg. destruct (Nat.eq_dec i t) as [->|Hi]; [rewrite A_self in * | rewrite A_other in * by exact Hi];
+          apply (inv_prot c I); assumption.
+      + intros g0 Wg Hg. simpl. destruct (Nat.eq_dec i t) as [->|Hi].
+        * rewrite A_self in Hg. rewrite V_self. simpl. apply (inv_fresh c I); assumption.
+        * rewrite A_other in Hg by exact Hi. rewrite V_other by exact Hi. apply (inv_fresh c I); assumption.
       + simpl. destruct (Nat.eq_dec i t) as [->|Hi].
-        * rewrite V_self, thr_self. simpl. rewrite (inv_fresh c I t g Hfr). rewrite (inv_obs c I t). reflexivity.
+        * rewrite V_self, thr_self. simpl. unfold wobs. simpl. destruct (W g) eqn:Wg.
+          -- rewrite (inv_fresh c I t g Wg (Hfr eq_refl)). f_equal. apply (inv_obs c I).
+          -- apply (inv_obs c I).
         * rewrite V_other, thr_other by exact Hi. apply (inv_obs c I).
     - (* Local *)
       inversion Hs; subst c'; clear Hs.
@@ -156,11 +168,11 @@ Section Conf.
           apply (inv_held c I); exact Hl.
       + intros l0 Hl. simpl in Hl. destruct (Nat.eq_dec i t) as [->|Hi]; [rewrite A_self | rewrite A_other by exact Hi];
           simpl; apply (inv_locks c I); exact Hl.
-      + intros g0 Hg. destruct (Nat.eq_dec i t) as [->|Hi]; [rewrite A_self in * | rewrite A_other in * by exact Hi];
-          apply (inv_prot c I); exact Hg.
-      + intros g0 Hg. simpl. destruct (Nat.eq_dec i t) as [->|Hi].
-        * rewrite A_self in Hg. rewrite V_self. simpl. apply (inv_fresh c I). exact Hg.
-        * rewrite A_other in Hg by exact Hi. rewrite V_other by exact Hi. apply (inv_fresh c I). exact Hg.
+      + intros g0 Wg Hg. destruct (Nat.eq_dec i t) as [->|Hi]; [rewrite A_self in * | rewrite A_other in * by exact Hi];
+          apply (inv_prot c I); assumption.
+      + intros g0 Wg Hg. simpl. destruct (Nat.eq_dec i t) as [->|Hi].
+        * rewrite A_self in Hg. rewrite V_self. simpl. apply (inv_fresh c I); assumption.
+        * rewrite A_other in Hg by exact Hi. rewrite V_other by exact Hi. apply (inv_fresh c I); assumption.
       + simpl. destruct (Nat.eq_dec i t) as [->|Hi].
         * rewrite V_self, thr_self. simpl. apply (inv_obs c I).
         * rewrite V_other, thr_other by exact Hi. apply (inv_obs c I).
@@ -179,12 +191,12 @@ Section Conf.
         * rewrite upd_other in Hl by exact Hl0. destruct (Nat.eq_dec i t) as [->|Hi].
           -- rewrite A_self. simpl. right. apply (inv_locks c I). exact Hl.
           -- rewrite A_other by exact Hi. apply (inv_locks c I). exact Hl.
-      + intros g0 Hg. destruct (Nat.eq_dec i t) as [->|Hi].
-        * rewrite A_self in *. simpl in Hg. eapply may_access_mono; [|apply (inv_prot c I); exact Hg]. simpl. auto.
-        * rewrite A_other in * by exact Hi. apply (inv_prot c I). exact Hg.
-      + intros g0 Hg. simpl. destruct (Nat.eq_dec i t) as [->|Hi].
-        * rewrite A_self in Hg. simpl in Hg. rewrite V_self. simpl. apply (inv_fresh c I). exact Hg.
-        * rewrite A_other in Hg by exact Hi. rewrite V_other by exact Hi. apply (inv_fresh c I). exact Hg.
+      + intros g0 Wg Hg. destruct (Nat.eq_dec i t) as [->|Hi].
+        * rewrite A_self in *. simpl in Hg. eapply may_access_mono; [|apply (inv_prot c I); assumption]. simpl. auto.
+        * rewrite A_other in * by exact Hi. apply (inv_prot c I); assumption.
+      + intros g0 Wg Hg. simpl. destruct (Nat.eq_dec i t) as [->|Hi].
+        * rewrite A_self in Hg. simpl in Hg. rewrite V_self. simpl. apply (inv_fresh c I); assumption.
+        * rewrite A_other in Hg by exact Hi. rewrite V_other by exact Hi. apply (inv_fresh c I); assumption.
       + simpl. destruct (Nat.eq_dec i t) as [->|Hi].
         * rewrite V_self, thr_self. simpl. apply (inv_obs c I).
         * rewrite V_other, thr_other by exact Hi. apply (inv_obs c I).
@@ -202,17 +214,17 @@ Section Conf.
         rewrite upd_other in Hl by exact Hl0. destruct (Nat.eq_dec i t) as [->|Hi].
         * rewrite A_self. simpl. apply In_remove_nat. split; [apply (inv_locks c I); exact Hl | exact Hl0].
         * rewrite A_other by exact Hi. apply (inv_locks c I). exact Hl.
-      + intros g0 Hg. destruct (Nat.eq_dec i t) as [->|Hi].
+      + intros g0 Wg Hg. destruct (Nat.eq_dec i t) as [->|Hi].
         * rewrite A_self in *. simpl in Hg. apply filter_In in Hg. destruct Hg as [Hg Hnl].
-          pose proof (inv_prot c I t g0 Hg) as Hp. unfold may_access in *. unfold locked_by in Hnl.
+          pose proof (inv_prot c I t g0 Wg Hg) as Hp. unfold may_access in *. unfold locked_by in Hnl.
           destruct (disc g0) as [j|l']; [exact Hp|]. simpl.
           apply negb_true_iff in Hnl. apply Nat.eqb_neq in Hnl.
           apply mem_In. apply In_remove_nat. split; [apply mem_In; exact Hp | exact Hnl].
-        * rewrite A_other in * by exact Hi. apply (inv_prot c I). exact Hg.
-      + intros g0 Hg. simpl. destruct (Nat.eq_dec i t) as [->|Hi].
+        * rewrite A_other in * by exact Hi. apply (inv_prot c I); assumption.
+      + intros g0 Wg Hg. simpl. destruct (Nat.eq_dec i t) as [->|Hi].
         * rewrite A_self in Hg. simpl in Hg. apply filter_In in Hg. destruct Hg as [Hg _].
-          rewrite V_self. simpl. apply (inv_fresh c I). exact Hg.
-        * rewrite A_other in Hg by exact Hi. rewrite V_other by exact Hi. apply (inv_fresh c I). exact Hg.
+          rewrite V_self. simpl. apply (inv_fresh c I); assumption.
+        * rewrite A_other in Hg by exact Hi. rewrite V_other by exact Hi. apply (inv_fresh c I); assumption.
       + simpl. destruct (Nat.eq_dec i t) as [->|Hi].
         * rewrite V_self, thr_self. simpl. apply (inv_obs c I).
         * rewrite V_other, thr_other by exact Hi. apply (inv_obs c I).
